@@ -6,7 +6,7 @@
 //! several 1024-bit chunks; forged blocks whose output_root commits to another
 //! bitmap (everything else right) must be refused.
 
-use grin_chain::types::Options;
+use grin_chain::types::{Options, Tip};
 use grin_chain::Chain;
 use grin_core::core::hash::{Hash, Hashed};
 use grin_core::core::Block;
@@ -198,6 +198,7 @@ fn run_scenario(run: &Run, scenario: usize, h: &mut Hist, sc: &Scratch, n_trunk:
 		"tampered_output_root",
 		"random_mix",
 		"multi_block_rewind_newer_block_spends_older_chunk",
+		"head_reset_without_a_following_block",
 	];
 	let name = names[scenario % names.len()];
 	let mut cx = Ctx {
@@ -398,6 +399,84 @@ fn run_scenario(run: &Run, scenario: usize, h: &mut Hist, sc: &Scratch, n_trunk:
 				if ok {
 					ok &= deliver_ok(&mut cx, &mut node, h, &honest, "honest_after_tampered");
 					cur = honest.hash();
+				}
+			}
+		}
+		"head_reset_without_a_following_block" => {
+			// A rewind that no block follows in the same unit of work: `Chain::reset_chain_head` (the owner API's head
+			// reset) commits the rewound state as it is. Coinbase-only blocks on the tip (one output each, so odd and
+			// even output counts alternate, and rewinding them restores nothing), then the head is stepped back one
+			// block at a time, and later two and three blocks at once; the held bitmap commitment must be the one of
+			// the state reset to, also after a restart.
+			let mut cur = tip;
+			let mut line = vec![tip];
+			for _ in 0..6 {
+				let b = spend_block(h, &cur, &[], 10);
+				ok &= deliver_ok(&mut cx, &mut node, h, &b, "coinbase_only_block");
+				cur = b.hash();
+				line.push(cur);
+				if !ok {
+					break;
+				}
+			}
+			let mut reset_to = |cx: &mut Ctx, node: &mut Node, h: &mut Hist, target: Hash, headers_too: bool, what: &str| -> bool {
+				let chain = node.chain.as_ref().unwrap();
+				let hdr = match chain.get_block_header(&target) {
+					Ok(x) => x,
+					Err(e) => {
+						run.inconclusive(&format!("head reset: header of the target not readable: {:?}", e));
+						return false;
+					}
+				};
+				if let Err(e) = chain.reset_chain_head(Tip::from_header(&hdr), headers_too) {
+					run.inconclusive(&format!("head reset to an ancestor of the head refused: {:?}", e));
+					return false;
+				}
+				if chain.head().map(|t| t.last_block_h).ok() != Some(target) {
+					run.inconclusive("head reset did not move the head to the target");
+					return false;
+				}
+				run.count("head_resets_checked", 1);
+				if h.state(&target).outs.len() % 2 == 0 {
+					run.count("head_resets_onto_an_even_output_count", 1);
+				}
+				check_state(cx, node, h, what)
+			};
+			for j in (3..6).rev() {
+				if !ok {
+					break;
+				}
+				ok &= reset_to(&mut cx, &mut node, h, line[j], j % 2 == 0, "head_reset_one_block_back");
+				if ok && j == 4 {
+					ok &= reopen(&mut cx, &mut node, h, "after_head_reset");
+				}
+			}
+			// two, then three blocks at once (the header chain is reset with the body here, so the blocks that follow extend both)
+			if ok {
+				ok &= reset_to(&mut cx, &mut node, h, line[1], true, "head_reset_two_blocks_back");
+			}
+			if ok {
+				let mut cur = line[1];
+				let mut line2 = vec![cur];
+				for _ in 0..4 {
+					let b = spend_block(h, &cur, &[], 10);
+					ok &= deliver_ok(&mut cx, &mut node, h, &b, "coinbase_only_block_after_head_reset");
+					cur = b.hash();
+					line2.push(cur);
+					if !ok {
+						break;
+					}
+				}
+				if ok {
+					ok &= reset_to(&mut cx, &mut node, h, line2[1], true, "head_reset_three_blocks_back");
+				}
+				if ok {
+					ok &= full_check(&mut cx, &mut node, h, "after_head_resets");
+					ok &= reopen(&mut cx, &mut node, h, "end");
+				}
+				if ok {
+					let b = grow_block(h, &line2[1], 10);
+					ok &= deliver_ok(&mut cx, &mut node, h, &b, "block_after_head_reset");
 				}
 			}
 		}
@@ -706,7 +785,7 @@ fn main() {
 	let san = run.args.iter().any(|a| a == "--san");
 	// 1 + 4 + 10*(n-4) outputs: 107 blocks -> 1035 outputs (2 chunks); 335 -> 3315 (4 chunks)
 	let n_blocks: u64 = if san { 30 } else { run.tier.pick(107, 335) };
-	let n_scen: usize = run.tier.pick(5, 10);
+	let n_scen: usize = run.tier.pick(6, 12);
 	if let Some((shard, n)) = run.worker_shard() {
 		init_thread(true);
 		let dir = run.arg_value("--dir").expect("--dir");
@@ -732,7 +811,8 @@ fn main() {
 		 the 1024-output boundary (rewind shrinks the output set across a chunk boundary), growth across the boundary on the fork, reorg \
 		 back; (3) blocks identical to an honest one except that output_root commits to another bitmap (spent marked unspent, unspent \
 		 marked spent, parent-state bitmap, extra chunk) must be refused; (4) random mix of spends, growth, winning forks and reopen; (5) branches of 2-3 blocks where only the newest block spends \
-		 outputs of the oldest chunk, rewound at once by a losing and then a winning fork block. \
+		 outputs of the oldest chunk, rewound at once by a losing and then a winning fork block; (6) coinbase-only blocks (odd and even output \
+		 counts alternate), then Chain::reset_chain_head steps the head back one, two and three blocks with no block following, restart. \
 		 After EVERY accepted block: node bitmap root == commitment computed from scratch over the replayed unspent set; at \
 		 checkpoints the full reference comparison; restart must not change the root. One evaluation per compared state (distinct by scenario, step kind, output-count band, occupancy band of the first chunk; non-trivial = state with >= 2 chunks) and per forged variant.",
 	);
@@ -762,6 +842,8 @@ fn main() {
 			run.counter("multi_block_rewinds_with_newer_block_spending_older_chunk"),
 			2,
 		);
+		run.require("head_resets_checked", run.counter("head_resets_checked"), 5);
+		run.require("head_resets_onto_an_even_output_count", run.counter("head_resets_onto_an_even_output_count"), 2);
 		run.require("boundary_index_spends", run.counter("boundary_index_spends"), 2);
 		run.require("old_chunk_spends", run.counter("old_chunk_spends"), 8);
 		run.require("reopen_comparisons", run.counter("reopen_comparisons"), 3);
